@@ -350,8 +350,10 @@ Proof.
     + apply (SI_step f o f' true HS); [|assumption]. exists pc. auto.
     + apply Forall_set_nth; [assumption|]. exists pc. auto.
   - split; [assumption|]. apply Forall_set_nth; [assumption|]. exists pc. auto.
-  - split; [|constructor]. apply (SI_step f (WriteAt p off (firstn n d)) f' true HS); [|exact Ha]. exists pc. repeat split; auto.
-    right. now apply good_cut_of_good_write.
+  - split.
+    + apply (SI_step f (WriteAt p off (firstn n d)) f' true HS); [|exact Ha]. exists pc. repeat split; auto.
+      right. now apply good_cut_of_good_write.
+    + apply Forall_set_nth; [assumption|]. exists pc. repeat split; auto. constructor. discriminate.
   - split; [assumption|]. apply Forall_set_nth; [assumption|]. exists pc. auto.
   - split; [assumption|]. apply Forall_set_nth; [assumption|]. exists pc. auto.
 Qed.
